@@ -62,6 +62,9 @@ type Property struct {
 	Search func(r *rng.R) []Case
 	// Exhaustive reports whether Generate(tier) enumerates a finite domain completely.
 	Exhaustive func(tier string) bool
+	// ObsTags (optional) returns tags that depend on what the implementation did on the case
+	// (counted in the evidence like Case.Tags; no influence on any verdict).
+	ObsTags func(input, obs string) []string
 	// Workers > 1 runs RunImpl concurrently (only for implementations without
 	// process-global state).
 	Workers int
@@ -190,6 +193,7 @@ type Result struct {
 	Tags               map[string]int `json:"tags"`
 	Exhaustive         bool           `json:"exhaustive"`
 	Inconclusive       int            `json:"inconclusive"`
+	Unstarted          int            `json:"unstarted"` // cases not run because the run budget was used up (they are also counted in Inconclusive)
 	InconclusiveWhy    []string       `json:"inconclusive_why,omitempty"`
 	Disagreements      []CaseResult   `json:"disagreements"`
 	SpecFailures       []CaseResult   `json:"spec_failures"` // agree, spec=0, hyp="-"
@@ -283,10 +287,34 @@ func safeRun(p *Property, input string) (obs string, err error) {
 // so that /verif/check can attribute a crash of the whole process to a concrete input.
 var currentCaseFile string
 
-func runAll(p *Property, items []*item) {
+// RunBudget bounds the wall time of one correspondence run: cases not STARTED when it is used up are
+// not run (inconclusive, counted in Result.Unstarted); the check reports a run that could not be
+// completed as "correspondence no longer checks". A broken tree can make every case wait for its
+// ceiling; without a budget such a run takes hours. Default: 20 min (quick), 4 h (thorough);
+// VERIF_RUN_BUDGET_S overrides. On the unchanged tree a quick run takes 0.2–3 min.
+var errBudget = fmt.Errorf("infrastructure: run budget used up before this case was started")
+
+func runBudget(tier string) time.Duration {
+	if v := os.Getenv("VERIF_RUN_BUDGET_S"); v != "" {
+		if n, err := time.ParseDuration(v + "s"); err == nil {
+			return n
+		}
+	}
+	if tier == "thorough" {
+		return 4 * time.Hour
+	}
+	return 20 * time.Minute
+}
+
+func runAll(p *Property, items []*item, deadline time.Time) (unstarted int) {
 	w := p.Workers
 	if w <= 1 {
 		for _, it := range items {
+			if time.Now().After(deadline) {
+				it.err = errBudget
+				unstarted++
+				continue
+			}
 			if currentCaseFile != "" {
 				os.WriteFile(currentCaseFile, []byte(it.c.Input), 0o644)
 			}
@@ -309,10 +337,16 @@ func runAll(p *Property, items []*item) {
 		}()
 	}
 	for _, it := range items {
+		if time.Now().After(deadline) {
+			it.err = errBudget
+			unstarted++
+			continue
+		}
 		ch <- it
 	}
 	close(ch)
 	wg.Wait()
+	return
 }
 
 type driverAns struct {
@@ -409,6 +443,9 @@ func shrink(p *Property, o RunOpts, cr CaseResult) CaseResult {
 			if cand == cr.Input || len(cand) >= len(cr.Input) {
 				continue
 			}
+			if !time.Now().Before(deadline) {
+				break
+			}
 			c2, err := evalOne(p, o, cand, "shrunk")
 			if err != nil {
 				continue
@@ -474,7 +511,7 @@ func Run(p *Property, o RunOpts) (*Result, error) {
 		}
 	}
 
-	runAll(p, items)
+	res.Unstarted = runAll(p, items, t0.Add(runBudget(o.Tier)))
 	var live []*item
 	for _, it := range items {
 		if it.err != nil {
@@ -501,6 +538,11 @@ func Run(p *Property, o RunOpts) (*Result, error) {
 		res.Evaluations++
 		for _, t := range it.c.Tags {
 			res.Tags[t]++
+		}
+		if p.ObsTags != nil {
+			for _, t := range p.ObsTags(cr.Input, cr.Impl) {
+				res.Tags[t]++
+			}
 		}
 		if !seen[cr.Input] {
 			seen[cr.Input] = true
@@ -574,7 +616,7 @@ func Run(p *Property, o RunOpts) (*Result, error) {
 			for _, c := range cs {
 				sitems = append(sitems, &item{c: c, origin: "search"})
 			}
-			runAll(p, sitems)
+			runAll(p, sitems, time.Now().Add(10*time.Minute)) // the wider search has a budget of its own
 			var slive []*item
 			for _, it := range sitems {
 				if it.err == nil {
